@@ -258,7 +258,10 @@ class SSHConnection(service.SSHService):
             # packet = packet[:channel.localWindowLeft+4]
         data = common.getNS(packet[4:])[0]
         channel.localWindowLeft -= dataLength
-        if channel.localWindowLeft < channel.localWindowSize // 2:
+        if (
+            not channel.localWindowLeft
+            or channel.localWindowLeft < channel.localWindowSize // 2
+        ):
             self.adjustWindow(
                 channel, channel.localWindowSize - channel.localWindowLeft
             )
@@ -285,7 +288,10 @@ class SSHConnection(service.SSHService):
             return
         data = common.getNS(packet[8:])[0]
         channel.localWindowLeft -= dataLength
-        if channel.localWindowLeft < channel.localWindowSize // 2:
+        if (
+            not channel.localWindowLeft
+            or channel.localWindowLeft < channel.localWindowSize // 2
+        ):
             self.adjustWindow(
                 channel, channel.localWindowSize - channel.localWindowLeft
             )
